@@ -186,6 +186,30 @@ func init() {
 		cfg("restart", 0), cfg("restart", 1), cfg("restart", 1, "newPrice", 1), cfg("restart", 0, "newVersion", 1, "newValidators", 1), cfg("restart", 1, "newVersion", 1, "newValidators", 1),
 	}, Bounds: "genesis block + one block, with or without a restart in between; emission, price reserves, last reward: unbounded integers"})
 
+	// ---------------------------------------------------------- C09 state modules / C08 map order
+	{
+		var cs, cs8 []map[string]int64
+		for step := 0; step <= 4; step++ {
+			for restart := 0; restart <= 1; restart++ {
+				cs = append(cs, cfg("step", step, "restart", restart))
+			}
+			cs8 = append(cs8, cfg("step", step, "concrete", 1))
+		}
+		add("C09", append([]string{
+			"state modules: every module is populated through its own mutators (3 accounts, 2 coins, a multisig, 2 candidates x 3 stakes, 2 validators, 3 frozen items, 2 waitlist entries, halts, update votes, 2 used checks, 2 pools, 2 orders), committed, modified by one of 5 second-block steps (optionally in a restarted process) and committed again; after each commit a fresh State over the same database must answer every getter like the continuing one",
+			"balances, frozen funds, waitlist, coin volume/reserve, slashed are symbolic; stakes, pool reserves and order volumes are concrete (they drive control flow / float-encoded keys)",
+			"IAVL pruning (DeleteVersion) and the paged on-disk order index under long interleavings are outside",
+		}, commonAssumptions...), HSpec{Pkg: "coreV2/state", Func: "VerifHarness_C09_StateRestart", Tier: "quick", Configs: cs,
+			Bounds: "two committed blocks over the universe above; 5 kinds of second-block activity x restart or not"})
+		add("C08", append([]string{
+			"reduction: block execution starts no goroutines and reads no clock into state; the remaining source of cross-instance divergence examined here is Go's randomised map iteration",
+			"every map range met while committing is explored in every order (all permutations up to 3 entries, rotations and reversal beyond), one deviating site per path (others in default order); the ordered sequence of database writes (store, key, value) must be identical across orders",
+			"data is concrete in this mode (write traces are compared textually); separate processes with different GOMAXPROCS/GOGC are not run; unstable-sort ties, pointer-order and third-party nondeterminism are outside",
+			"a violation is confirmed natively by running the same harness repeatedly and observing differing IAVL root hashes",
+		}, commonAssumptions...), HSpec{Pkg: "coreV2/state", Func: "VerifHarness_C09_StateRestart", Tier: "quick", Configs: cs8, Opts: gosym.HarnessOpts{MapOrders: true},
+			Bounds: "two State.Commit calls over the populated universe, 5 kinds of second-block activity; every iteration order at every map-range site, one deviating site per path"})
+	}
+
 	// ---------------------------------------------------------- C10 commit crash (application-level writes)
 	{
 		var cs []map[string]int64
